@@ -657,7 +657,7 @@ def rule_optflow3(ctx: Ctx) -> RuleResult:
         if isinstance(c, ast.Compare) and isinstance(c.ops[0], (ast.In, ast.NotIn)) and isinstance(c.left, ast.Constant) \
                 and isinstance(c.left.value, str) and 0 < len(c.left.value) <= 2 and isinstance(c.comparators[0], ast.Name):
             tested |= set(c.left.value)
-        if isinstance(c, ast.Call) and norm(c.func) in ("any", "set"):
+        if isinstance(c, ast.Call) and norm(c.func) in ("any", "all", "set"):
             for k in ast.walk(c):
                 if isinstance(k, ast.Constant) and isinstance(k.value, str) and 0 < len(k.value) <= 4:
                     tested |= set(k.value)
@@ -956,6 +956,8 @@ def rule_seq1(ctx: Ctx) -> RuleResult:
     # (b) the accumulation is reached on every non-raising path of each loop iteration
     exts = [n for n in walk_no_nested(sm.node) if isinstance(n, ast.Call) and isinstance(n.func, ast.Attribute)
             and n.func.attr in ("extend", "append") and isinstance(n.func.value, ast.Subscript)]
+    # `D[name] += samples` on a list is extend()
+    exts += [n for n in walk_no_nested(sm.node) if isinstance(n, ast.AugAssign) and isinstance(n.op, ast.Add) and isinstance(n.target, ast.Subscript)]
     if not exts:
         raise AnalysisError("SEQ-1: setup_models_data no longer accumulates samples per model name")
     for e in exts:
@@ -1027,6 +1029,8 @@ def rule_seq1(ctx: Ctx) -> RuleResult:
             first = lp.body[0] if lp.body else None
             if isinstance(first, ast.Assign) and norm(first.value) == f"self.models_data[{lp.target.id}]" and isinstance(first.targets[0], ast.Name):
                 dn = first.targets[0].id
+            else:
+                dn = f"self.models_data[{lp.target.id}]"         # generate(*self.models_data[name])
         if dn is not None:
             for c in ast.walk(lp):
                 if isinstance(c, ast.Call) and isinstance(c.func, ast.Attribute) and c.func.attr == "generate" and \
